@@ -234,7 +234,7 @@ class PollExecutor(CanCustomizeBind, Executor):
             ]
 
     def _run_cancel_fn(self, future):
-        if not self._cancel_fn:
+        if self._cancel_fn is None:
             # no cancel function => no veto of cancel
             return True
 
